@@ -496,3 +496,12 @@ def run(ctx):
     # intermediate value is not (a - b computed as a + (-b) fails for b = -32768)
     c06.r10_integer_arithmetic_is_direct(ctx, "C01.R10")
     r11_operands_are_evaluated_unconditionally(ctx)
+    # what an expression prints depends on how it is grouped: the rotation predicates and the rotations of the
+    # expression parser, interpreted on every operator pair / chain (shared with C10)
+    from . import c10
+    from .. import tagflow as _tf
+    _eng = _tf.Engine(ctx.prog)
+    c10.r1_binary_flip(ctx, _eng, "C01.R12")
+    c10.r2_unary_flip(ctx, _eng, "C01.R12")
+    c10.r6_unary_over_chains(ctx, "C01.R12")
+    c10.r10_binary_chains(ctx, "C01.R12")
